@@ -58,7 +58,6 @@ impl CornerRadii {
 
     /// Confine corner radii that are too large to a given bounding rectangle
     pub(in crate::primitives) fn confine(self, bounding_box: Size) -> Self {
-        let mut overlap = 0;
         let mut size = 0;
         let mut corner_size = 0;
 
@@ -67,35 +66,23 @@ impl CornerRadii {
         let bottom_radii = self.bottom_left.width + self.bottom_right.width;
         let left_radii = self.top_left.height + self.bottom_left.height;
 
-        let o = top_radii.saturating_sub(bounding_box.width);
-        if o > overlap {
-            size = bounding_box.width;
-            corner_size = top_radii;
-            overlap = o;
+        // Find the side with the largest ratio between the sum of its radii and its length.
+        for (radii, side) in [
+            (top_radii, bounding_box.width),
+            (right_radii, bounding_box.height),
+            (bottom_radii, bounding_box.width),
+            (left_radii, bounding_box.height),
+        ] {
+            if radii > side
+                && (corner_size == 0
+                    || u64::from(radii) * u64::from(size) > u64::from(corner_size) * u64::from(side))
+            {
+                size = side;
+                corner_size = radii;
+            }
         }
 
-        let o = right_radii.saturating_sub(bounding_box.height);
-        if o > overlap {
-            size = bounding_box.height;
-            corner_size = right_radii;
-            overlap = o;
-        }
-
-        let o = bottom_radii.saturating_sub(bounding_box.width);
-        if o > overlap {
-            size = bounding_box.width;
-            corner_size = bottom_radii;
-            overlap = o;
-        }
-
-        let o = left_radii.saturating_sub(bounding_box.height);
-        if o > overlap {
-            size = bounding_box.height;
-            corner_size = left_radii;
-            overlap = o;
-        }
-
-        if overlap > 0 && corner_size > 0 {
+        if corner_size > 0 {
             Self {
                 top_left: (self.top_left * size) / corner_size,
                 top_right: (self.top_right * size) / corner_size,
